@@ -491,6 +491,7 @@ fn var_setup(spec: &ModelSpec, tau: f64, x: &[f64], f_hi: f64, obs: &mut Obs) ->
         f_eta: 1.0,
         x: x.to_vec(),
         lambda: 1.0,
+        no_t_floor: false,
     };
     let mut inputs = match state_inputs(spec, &model, &st) {
         Ok(i) => i,
